@@ -3,7 +3,7 @@
 # and refresh seeded/<id>/meta.json; uses scratch worktrees /tmp/reseed_<k>, removed at the end.
 jobs=${1:-4}
 cd "$(dirname "$0")/.."
-ls -d seeded/C*_* | sort > /tmp/reseed.list
+ls -d "$PWD"/seeded/C*_* | sort > /tmp/reseed.list
 split -n r/$jobs /tmp/reseed.list /tmp/reseed.part.
 k=0
 for part in /tmp/reseed.part.*; do
